@@ -11,4 +11,12 @@ CHECKS = {
         "require_classes": ["rfs:ok", "rfs:ShorterThanHeader", "rfs:WrongAlignment", "rfs:MissingPadding", "rfs:InvalidReportedTotalSize", "rounding:block"],
         "assumptions": ["x86-64 Linux, little-endian, 4 KiB pages", "necessity only: the property says 'succeeds only if' (DESIGN 6)"],
     },
+    "C02": {
+        "bin": "c02",
+        "cfgs": {"quick": ["dD", "rD"], "thorough": ["dD", "rD", "dN", "rN"]},
+        "technique": MC,
+        "rule": "one leaf per (total-size word, reserved word, type word of the last 8 bytes, size word of the last 8 bytes) plus the null pointer; all combinations enumerated, distinct by construction. non-trivial = total size below 16 or not a multiple of 8, or the verdict is Ok, or one of the two end-tag words is the well-formed one (boundary of the end-tag test)",
+        "require_classes": ["load:Null", "load:ShorterThanHeader", "load:MissingPadding", "load:NoEndTag", "load:Ok"],
+        "assumptions": ["the region is as large as it declares (precondition of the property); sizes beyond 1 MiB + 16 are not explored"],
+    },
 }
